@@ -212,7 +212,7 @@ func (srv6) Valid(i int, t *simrt.Tape) []byte {
 		// the library decodes it, so it is a valid datagram for the handler
 		d = &dhcpv6.RelayMessage{MessageType: dhcpv6.MessageTypeRelayForward, HopCount: uint8(i), LinkAddr: net.ParseIP("2001:db8::77"),
 			PeerAddr: net.ParseIP(fmt.Sprintf("fe80::%x", 1+i%200)),
-			Options: dhcpv6.RelayOptions{Options: dhcpv6.Options{dhcpv6.OptInterfaceID([]byte{byte(i >> 8), byte(i), 0x1f})}}}
+			Options:  dhcpv6.RelayOptions{Options: dhcpv6.Options{dhcpv6.OptInterfaceID([]byte{byte(i >> 8), byte(i), 0x1f})}}}
 	}
 	for depth := t.Weighted(5, 2, 1, 1); depth > 0; depth-- {
 		typ := dhcpv6.MessageTypeRelayForward
